@@ -359,6 +359,800 @@ def judge_crash_case(site, res, have_old, cov, viols, first_violation, stats, ca
                                    broken="codec hypotheses (parse.print / strict prefixes) or loader model", **replay))
 
 
+# ---------------------------------------------------------------- JSON <-> driver tokens
+def to_tokens(v, out=None):
+    import decimal
+    top = out is None
+    out = [] if top else out
+    if v is None:
+        out.append("n")
+    elif v is True:
+        out.append("t")
+    elif v is False:
+        out.append("f")
+    elif isinstance(v, int):
+        out.append(f"i{v}")
+    elif isinstance(v, float):
+        d = decimal.Decimal(repr(v))
+        sign, digits, exp = d.as_tuple()
+        m = int("".join(map(str, digits))) * (-1 if sign else 1)
+        if exp > 0:
+            m, exp = m * 10 ** exp, 0
+        out.append(f"d{m}:{-exp}")
+    elif isinstance(v, str):
+        out.append("s" + hx(v.encode("utf-8")))
+    elif isinstance(v, (list, tuple)):
+        out.append(f"a{len(v)}")
+        for x in v:
+            to_tokens(x, out)
+    elif isinstance(v, dict):
+        out.append(f"o{len(v)}")
+        for k, x in v.items():
+            out.append("s" + hx(str(k).encode("utf-8")))
+            to_tokens(x, out)
+    else:
+        raise TypeError(type(v))
+    return " ".join(out) if top else None
+
+
+def from_tokens(toks, pos=0):
+    import decimal
+    t = toks[pos]
+    c, body = t[0], t[1:]
+    if c == "n":
+        return None, pos + 1
+    if c == "t":
+        return True, pos + 1
+    if c == "f":
+        return False, pos + 1
+    if c == "i":
+        return int(body), pos + 1
+    if c == "d":
+        m, e = body.split(":")
+        return float(decimal.Decimal(int(m)).scaleb(-int(e))), pos + 1
+    if c == "s":
+        return (b"" if body == "-" else bytes.fromhex(body)).decode("utf-8"), pos + 1
+    if c == "a":
+        out, pos = [], pos + 1
+        for _ in range(int(body)):
+            x, pos = from_tokens(toks, pos)
+            out.append(x)
+        return out, pos
+    if c == "o":
+        out, pos = {}, pos + 1
+        for _ in range(int(body)):
+            k, pos = from_tokens(toks, pos)
+            x, pos = from_tokens(toks, pos)
+            out[k] = x
+        return out, pos
+    raise ValueError(t)
+
+
+def parse_answer(ans):
+    """'ok <v> ; <v> ; ok <v>' -> list of python values / class strings."""
+    parts = [p.strip() for p in ans.split(";")]
+    out = []
+    for p in parts:
+        toks = p.split()
+        if not toks:
+            out.append(("empty",))
+        elif toks[0] == "ok":
+            out.append(("ok", from_tokens(toks, 1)[0]) if len(toks) > 1 else ("ok",))
+        elif toks[0] in ("crash", "err", "fuel", "unmodelled", "driver-exception"):
+            out.append((toks[0],))
+        else:
+            out.append(("ok", from_tokens(toks, 0)[0]))
+    return out
+
+
+def canon(v):
+    return json.dumps(v, sort_keys=True, ensure_ascii=True)
+
+
+# ---------------------------------------------------------------- entity maps: implementation side
+CRASH_EXC = (KeyError, TypeError, AttributeError, IndexError)
+
+
+def dump_accessories(accs):
+    out = []
+    for a in accs:
+        svcs = []
+        for sv in a.services:
+            chars = []
+            for c in sv.characteristics:
+                chars.append({"type": c.type, "iid": c.iid, "perms": list(c.perms), "format": c.format, "value": c._value,
+                              "description": c.description, "unit": c.unit, "minValue": c.minValue,
+                              "maxValue": c.maxValue, "minStep": c.minStep, "valid_values": c.valid_values,
+                              "handle": c.handle, "broadcast_events": c.broadcast_events,
+                              "disconnected_events": c.disconnected_events})
+            svcs.append({"iid": sv.iid, "type": sv.type, "linked": [x.iid for x in sv.linked], "characteristics": chars})
+        out.append({"aid": a.aid, "services": svcs})
+    return out
+
+
+LISTED = ["type", "iid", "perms", "format", "value", "minValue", "maxValue", "minStep", "valid_values", "handle",
+          "broadcast_events", "disconnected_events"]
+
+
+def listed_view(dump):
+    """The fields the property lists (description/unit are display metadata)."""
+    return [{"aid": a["aid"], "services": [{"iid": s["iid"], "type": s["type"], "linked": s["linked"],
+                                             "characteristics": [{k: c[k] for k in LISTED} for c in s["characteristics"]]}
+                                            for s in a["services"]]} for a in dump]
+
+
+def impl_from_list(j):
+    from aiohomekit.model import Accessories
+    try:
+        return ("ok", Accessories.from_list(json.loads(json.dumps(j))))
+    except CRASH_EXC:
+        return ("crash",)
+    except ValueError:
+        return ("err",)
+    except Exception as e:  # noqa
+        return ("other:" + type(e).__name__,)
+
+
+def table_for(j_norm):
+    from aiohomekit.model.characteristics.data import characteristics
+    out = {}
+    for a in j_norm if isinstance(j_norm, list) else []:
+        for sv in (a.get("services") or []) if isinstance(a, dict) else []:
+            for c in (sv.get("characteristics") or []) if isinstance(sv, dict) else []:
+                t = c.get("type") if isinstance(c, dict) else None
+                if isinstance(t, str) and t in characteristics and t not in out:
+                    e = characteristics[t]
+                    out[t] = {k: e[k] for k in ("format", "description", "unit", "min_value", "max_value", "min_step")
+                              if k in e}
+    return out
+
+
+def normalise_types(j):
+    """Apply the reference UUID normalisation to every service / characteristic type ('!' marks a rejected value)."""
+    from ref.c20_uuid import ref_normalize
+    j = json.loads(json.dumps(j))
+
+    def fix(d):
+        if isinstance(d, dict) and isinstance(d.get("type"), str):
+            n = ref_normalize(d["type"])
+            d["type"] = n if n is not None else "!" + d["type"]
+    for a in j if isinstance(j, list) else []:
+        for sv in (a.get("services") or []) if isinstance(a, dict) else []:
+            fix(sv)
+            for c in (sv.get("characteristics") or []) if isinstance(sv, dict) else []:
+                fix(c)
+    return j
+
+
+# ---------------------------------------------------------------- entity maps: generators
+KNOWN_SHORT = ["23", "25", "8", "13", "11", "37", "52", "14", "a6", "ce", "10", "6D", "b0", "2f"]
+CUSTOM = ["E863F10A-079E-48FF-8F27-9C2605A29F52", "e863f10c-079e-48ff-8f27-9c2605a29f52", "34AB8811AC7F4340BAC3FD6A85F9943B",
+          "0a1b2c3d4", "151909D7-3802-11E4-916C-0800200C9A66"]
+SVC_TYPES = ["3E", "43", "0000003E-0000-1000-8000-0026BB765291", "8a", "49", "4a", "45"] + CUSTOM[:2]
+FORMATS = ["bool", "uint8", "uint16", "uint32", "uint64", "int", "float", "string", "tlv8", "data", "array", "dict"]
+PERMS = ["pr", "pw", "ev", "aa", "tw", "hd", "wr"]
+STRS = ["", "x", "Wohnzimmer ☀", "日本語", "a\"b\\c\n", "🏠", "é́", "1.2.3"]
+
+
+def num(r, fl=None):
+    fl = r.random() < 0.4 if fl is None else fl
+    if fl:
+        return r.choice([0.0, 0.1, 0.5, 1.0, 25.5, 100.0, -10.0, 1e-05, 0.30000000000000004, 0.10000000149011612,
+                         r.randrange(-1000, 1000) / 10, r.randrange(0, 10 ** 6) / 1000])
+    return r.choice([0, 1, 2, 5, 100, 255, 360, 65535, -5, -2147483648, 4294967295, 18446744073709551615,
+                     r.randrange(-50, 500)])
+
+
+def gen_value(r, fmt):
+    if fmt == "bool":
+        return r.choice([True, False, True, False, 1, 0])
+    if fmt in ("uint8", "uint16", "uint32", "uint64", "int"):
+        return num(r, False)
+    if fmt == "float":
+        return num(r)
+    if fmt == "string":
+        return r.choice(STRS)
+    if fmt in ("tlv8", "data"):
+        return r.choice(["", "AQEA", "AQEAAgEB", "AAECAwQFBgc="])
+    if fmt == "array":
+        return r.choice([[], [1, 2], ["a"]])
+    if fmt == "dict":
+        return r.choice([{}, {"a": 1}])
+    return r.choice([None, 1, "x", True, 0.5])
+
+
+def gen_char(r, iid, wf=True):
+    known = r.random() < 0.6
+    ty = r.choice(KNOWN_SHORT) if known else r.choice(CUSTOM)
+    if known and r.random() < 0.3:
+        ty = "000000%02s-0000-1000-8000-0026BB765291" % ty.upper() if len(ty) == 2 else ty
+        ty = ty.replace(" ", "0")
+        if r.random() < 0.5:
+            ty = ty.lower()
+    perms = [p for p in PERMS if r.random() < 0.35]
+    if r.random() < 0.7 and "pr" not in perms:
+        perms.insert(0, "pr")
+    c = {"type": ty, "iid": iid, "perms": perms}
+    fmt = r.choice(FORMATS)
+    if r.random() < 0.9:
+        c["format"] = fmt
+    elif r.random() < 0.3:
+        c["format"] = None
+        fmt = None
+    else:
+        fmt = None
+    numeric = fmt in ("uint8", "uint16", "uint32", "uint64", "int", "float")
+    if "pr" in perms and r.random() < 0.8:
+        c["value"] = gen_value(r, fmt)
+        if r.random() < 0.08:
+            c["value"] = None
+    if numeric and r.random() < 0.5:
+        lo, hi = sorted([num(r, fmt == "float"), num(r, fmt == "float")])
+        if r.random() < 0.8:
+            c["minValue"] = lo
+        if r.random() < 0.8:
+            c["maxValue"] = hi
+        if r.random() < 0.6:
+            c["minStep"] = r.choice([1, 0.1, 0.5, 5, 0.01])
+    if numeric and r.random() < 0.15:
+        c["valid-values"] = r.choice([[0, 1], [0, 1, 2], [1, 3], []])
+    if r.random() < 0.4:
+        c["description"] = r.choice(STRS + ["On", "Brightness"])
+    if r.random() < 0.25:
+        c["unit"] = r.choice(["celsius", "percentage", "arcdegrees", "lux", "seconds", ""])
+    if r.random() < 0.2:
+        c["maxLen"] = r.choice([64, 256])
+    if r.random() < 0.2:
+        c["ev"] = r.choice([True, False])
+    if r.random() < 0.3:
+        c["handle"] = r.randrange(1, 200)
+    if r.random() < 0.25:
+        c["broadcast_events"] = r.choice([True, False])
+    if r.random() < 0.25:
+        c["disconnected_events"] = r.choice([True, False])
+    if not wf:
+        m = r.random()
+        if m < 0.15:
+            c.pop(r.choice(["type", "iid", "perms"]))
+        elif m < 0.3:
+            c["type"] = r.choice(["not a uuid at all!", "zzzzzzzzzzzzzzzzzz", "12345678-9"])
+        elif m < 0.45:
+            c["perms"] = [p for p in c["perms"] if p != "pr"]
+            c["value"] = gen_value(r, fmt)          # a value on a characteristic that cannot be read
+        elif m < 0.6:
+            c[r.choice(["minValue", "maxValue", "minStep", "format", "valid-values", "handle"])] = None
+        elif m < 0.7 and fmt == "bool":
+            c["minValue"], c["perms"] = 1, ["pr"]
+            c.pop("value", None)
+        elif m < 0.8:
+            c["valid-values"] = r.choice([[2, 3], [None, 1]])
+            c.pop("value", None)
+        elif m < 0.9:
+            c["minValue"], c["maxValue"] = r.choice([(5, 2), (0.5, 0.25), (1, "x"), ("a", "b")])
+            c.pop("value", None)
+            c["perms"] = ["pr"]
+    items = list(c.items())
+    r.shuffle(items)
+    return dict(items)
+
+
+def gen_entity_map(r, wf=True, small=False):
+    accs = []
+    for ai in range(1 if small else r.choice([1, 1, 2, 3])):
+        n_s = r.choice([1, 2]) if small else r.choice([1, 2, 3, 5])
+        iids = r.sample(range(1, 200), 40)
+        s_iids = iids[:n_s]
+        k = n_s
+        svcs = []
+        for si in range(n_s):
+            chars = []
+            for _ in range(r.choice([0, 1, 2]) if small else r.choice([0, 1, 2, 4, 7])):
+                chars.append(gen_char(r, iids[k], wf or r.random() < 0.6))
+                k += 1
+            sv = {"iid": s_iids[si], "type": r.choice(SVC_TYPES), "characteristics": chars}
+            if r.random() < 0.3:
+                sv["linked"] = [r.choice(s_iids) for _ in range(r.choice([1, 2]))]
+                if r.random() < 0.3:
+                    sv["linked"].insert(r.randrange(len(sv["linked"]) + 1), 0)    # the Schlage zero
+            if r.random() < 0.1:
+                sv["linked"] = []
+            if r.random() < 0.2:
+                sv["primary"] = True                                               # unknown key, ignored
+            svcs.append(sv)
+        if not wf:
+            m = r.random()
+            if m < 0.15 and svcs:
+                svcs[-1]["iid"] = 0
+            elif m < 0.3 and len(svcs) > 1:
+                svcs[-1]["iid"] = svcs[0]["iid"]                                   # duplicate service iid
+                svcs[0]["linked"] = [svcs[0]["iid"]]
+            elif m < 0.45 and svcs:
+                svcs[0]["linked"] = [999]                                          # dangling link
+            elif m < 0.55 and svcs:
+                svcs[0].pop(r.choice(["iid", "type", "characteristics"]))
+            elif m < 0.6 and svcs:
+                svcs[0]["type"] = "this is no uuid, sorry"
+        a = {"aid": ai + 1, "services": svcs}
+        if not wf and r.random() < 0.05:
+            a.pop(r.choice(["aid", "services"]))
+        accs.append(a)
+    return accs
+
+
+def wf_map(j):
+    """The well-formedness the round-trip property is claimed for (mirrors wf_acc / wf_chr in Proofs/PersistRec.v,
+    stated on the JSON that an accessory sends)."""
+    from ref.c20_uuid import ref_normalize
+    try:
+        for a in j:
+            sids = [sv["iid"] for sv in a["services"]]
+            if len(set(sids)) != len(sids) or not all(isinstance(i, int) and not isinstance(i, bool) and i != 0 for i in sids):
+                return False
+            for sv in a["services"]:
+                if ref_normalize(sv["type"]) is None:
+                    return False
+                for l in sv.get("linked", []):
+                    if l and l not in sids:
+                        return False
+                for c in sv["characteristics"]:
+                    if ref_normalize(c["type"]) is None or not isinstance(c["perms"], list):
+                        return False
+                    if "pr" not in c["perms"] and c.get("value") is not None:
+                        return False
+                    for k in ("minValue", "maxValue", "minStep", "valid-values", "handle", "broadcast_events",
+                              "disconnected_events", "format"):
+                        if k in c and c[k] is None:
+                            return False
+                    if c.get("format") == "bool" and (c.get("minValue") or c.get("maxValue") or c.get("valid-values")):
+                        return False
+                    for k in ("minValue", "maxValue"):
+                        if k in c and (isinstance(c[k], bool) or not isinstance(c[k], (int, float))):
+                            return False
+                    vv = c.get("valid-values")
+                    if vv is not None and (not isinstance(vv, list) or (vv and vv[0] is None)):
+                        return False
+                    _ = c["iid"]
+        return True
+    except (KeyError, TypeError, AttributeError):
+        return False
+
+
+# ---------------------------------------------------------------- stream: entity map round trips
+def stream_emap(ctx, drv, cov, viols, r):
+    from aiohomekit import hkjson
+    tier = ctx["tier"]
+    cases = []
+    for f in sorted(glob.glob(os.path.join(ctx["repo"], "tests", "fixtures", "*.json"))):
+        try:
+            cases.append(("fixture:" + os.path.basename(f), json.load(open(f, encoding="utf-8"))))
+        except ValueError:
+            pass
+    n_fix = len(cases)
+    n_rand = 300 if tier == "quick" else 5000
+    for i in range(n_rand):
+        cases.append(("random-wf", gen_entity_map(r, True)))
+    for i in range(n_rand // 3):
+        cases.append(("random-malformed", gen_entity_map(r, False)))
+    reqs = []
+    for kind, j in cases:
+        jn = normalise_types(j)
+        reqs.append("rt " + to_tokens(table_for(jn)) + " " + to_tokens(jn))
+    answers = drv.batch(reqs)
+    stats = dict(fixtures=n_fix, wf=0, roundtrip_checked=0, impl_ok=0, impl_crash=0, impl_err=0, unmodelled=0,
+                 description_rederived=0)
+    seen = set()
+    for (kind, j), ans in zip(cases, answers):
+        model = parse_answer(ans)
+        impl = impl_from_list(j)
+        wf = wf_map(j)
+        stats["wf"] += wf
+        case_id = canon(j)
+        chars = sum(len(sv.get("characteristics") or []) for a in j if isinstance(a, dict)
+                    for sv in (a.get("services") or []) if isinstance(sv, dict))
+        cov.case("emap|" + case_id, chars > 0,
+                 sample=dict(stream="emap", kind=kind, accessories=len(j), characteristics=chars, impl=impl[0], wf=wf)
+                 if cov.evaluations % 211 == 0 else None,
+                 emap_kind=kind, emap_impl=impl[0], emap_wf=wf, emap_chars=min(chars, 20) // 5 * 5)
+        if model[0][0] == "unmodelled":
+            stats["unmodelled"] += 1
+            continue
+        if impl[0] != "ok":
+            stats["impl_" + impl[0]] = stats.get("impl_" + impl[0], 0) + 1
+            if wf:
+                key = "entity_roundtrip:well-formed-map-rejected"
+                if key not in seen:
+                    seen.add(key)
+                    viols.append(violation(key, f"Accessories.from_list fails ({impl[0]}) on a well-formed entity map", True,
+                                           kind=kind, entity_map=j, impl=impl[0]))
+            elif model[0][0] != impl[0]:
+                viols.append(violation("emap:model-mismatch:class", f"from_list: implementation {impl[0]}, model {model[0][0]}",
+                                       False, kind=kind, entity_map=j, broken="correspondence Model/PersistRec.v <-> model/__init__.py"))
+            continue
+        stats["impl_ok"] += 1
+        a1 = impl[1]
+        d1 = dump_accessories(a1)
+        s1 = a1.serialize()
+        text = hkjson.dumps(s1)
+        j2 = hkjson.loads(text)
+        impl2 = impl_from_list(j2)
+        d2 = dump_accessories(impl2[1]) if impl2[0] == "ok" else None
+        # ---- oracle (independent of the model): the listed fields survive serialize -> JSON -> from_list
+        if wf:
+            stats["roundtrip_checked"] += 1
+            bad = None
+            if impl2[0] != "ok":
+                bad = f"reload fails: {impl2[0]}"
+            elif listed_view(d1) != listed_view(d2):
+                l1, l2 = listed_view(d1), listed_view(d2)
+                bad = "listed fields differ after reload"
+                for x, y in zip(l1, l2):
+                    for sx, sy in zip(x["services"], y["services"]):
+                        if {k: v for k, v in sx.items() if k != "characteristics"} != {k: v for k, v in sy.items() if k != "characteristics"}:
+                            bad = f"service {sx['iid']}: {[k for k in sx if k != 'characteristics' and sx[k] != sy[k]]} changed"
+                        for cx, cy in zip(sx["characteristics"], sy["characteristics"]):
+                            if cx != cy:
+                                ks = [k for k in cx if cx[k] != cy[k]]
+                                bad = f"characteristic {x['aid']}.{cx['iid']}: fields {ks} changed: " \
+                                      f"{ {k: cx[k] for k in ks} } -> { {k: cy[k] for k in ks} }"
+            if bad:
+                fields = bad.split("fields ")[1].split(" changed")[0] if "fields " in bad else bad.split(":")[0][:30]
+                key = "entity_roundtrip:" + fields.replace(" ", "").replace("'", "")
+                if key not in seen:
+                    seen.add(key)
+                    viols.append(violation(key, "entity map round trip (from_list -> serialize -> JSON -> from_list): " + bad,
+                                           True, kind=kind, entity_map=j, serialized=s1))
+                continue
+            if d1 != d2:
+                stats["description_rederived"] += 1
+        # ---- correspondence with the record model
+        if model[0][0] != "ok" or len(model) < 3:
+            viols.append(violation("emap:model-mismatch:class", f"from_list: implementation ok, model {model[0][0]}", False,
+                                   kind=kind, entity_map=j, broken="correspondence Model/PersistRec.v <-> model/__init__.py"))
+            continue
+        md1, mser, md2 = model[0][1], model[1][1], model[2]
+        if canon(md1) != canon(d1):
+            viols.append(violation("emap:model-mismatch:from_list", "objects built by from_list differ from the model's", False,
+                                   kind=kind, entity_map=j, impl=d1, model=md1,
+                                   broken="correspondence Model/PersistRec.v <-> Accessory.create_from_dict"))
+        elif canon(mser) != canon(s1):
+            viols.append(violation("emap:model-mismatch:serialize", "serialize() differs from the model's", False,
+                                   kind=kind, entity_map=j, impl=s1, model=mser,
+                                   broken="correspondence Model/PersistRec.v <-> to_accessory_and_service_list"))
+        elif (md2[0], canon(md2[1]) if md2[0] == "ok" else None) != (impl2[0], canon(d2) if d2 is not None else None):
+            viols.append(violation("emap:model-mismatch:reload", "reloaded objects differ from the model's", False,
+                                   kind=kind, entity_map=j, impl=d2, model=md2,
+                                   broken="correspondence Model/PersistRec.v <-> Accessory.create_from_dict"))
+    cov.extra["emap_stream"] = stats
+
+
+# ---------------------------------------------------------------- stream: cache entry <-> AccessoriesState, restart
+def stream_entry(ctx, drv, cov, viols, root, r):
+    import pathlib
+
+    from aiohomekit.characteristic_cache import CharacteristicCacheFile
+    tier = ctx["tier"]
+    n = 60 if tier == "quick" else 800
+    stats = dict(entries=0, restarts_ok=0)
+    seen = set()
+    path = os.path.join(root, "cache.json")
+    for i in range(n):
+        reset_dir(root, {})
+        emap = gen_entity_map(r, True, small=(i % 3 != 0))
+        hkid = ":".join(f"{r.getrandbits(8):02X}" for _ in range(6))
+        if i % 4 == 1:
+            hkid = hkid.lower()
+        entry = {"accessories": emap}
+        if i % 5 != 4:
+            entry["config_num"] = r.choice([0, 1, 2, 65535, r.randrange(1, 1000)])
+        if i % 3 != 2:
+            entry["broadcast_key"] = r.choice([None, hexs(r, 32), hexs(r, 32).upper(), hexs(r, 1)])
+        if i % 4 != 3:
+            entry["state_num"] = r.choice([None, 1, 2, 65535, r.randrange(1, 65536)])
+        with open(path, "w", encoding="utf-8") as f:
+            json.dump({"pairings": {hkid: entry}}, f, ensure_ascii=False)
+        pd = gen_pairing(r, "BLE")
+        pd["AccessoryPairingID"] = hkid
+        jn = normalise_types(emap)
+        ans = parse_answer(drv.batch(["entry " + to_tokens(table_for(jn)) + " " + to_tokens(dict(entry, accessories=jn))])[0])
+
+        def state_of(pairing):
+            st = pairing.accessories_state
+            if st is None:
+                return None
+            return {"config_num": st.config_num, "broadcast_key": st.broadcast_key.hex() if st.broadcast_key is not None else None,
+                    "state_num": st.state_num, "accessories": dump_accessories(st.accessories)}
+        try:
+            c1 = make_controller(CharacteristicCacheFile(pathlib.Path(path)))
+            p1 = c1.load_pairing("a", dict(pd))
+            st1 = state_of(p1)
+            p1._update_accessories_state_cache()
+            saved = json.load(open(path, encoding="utf-8"))["pairings"][hkid]
+            c2 = make_controller(CharacteristicCacheFile(pathlib.Path(path)))
+            p2 = c2.load_pairing("a", dict(pd))
+            st2 = state_of(p2)
+            impl = "ok"
+        except Exception as e:  # noqa
+            impl, st1, st2, saved = "exc:" + type(e).__name__, None, None, None
+        stats["entries"] += 1
+        cov.case("entry|" + canon(entry) + hkid, True,
+                 sample=dict(stream="entry", id=hkid, keys=sorted(entry), impl=impl) if i % 29 == 0 else None,
+                 entry_impl=impl, entry_has_key=bool(entry.get("broadcast_key")), entry_has_state=entry.get("state_num") is not None)
+        # oracle: restart preserves configuration number, state number, broadcast key and the listed fields
+        want = {"config_num": entry.get("config_num", 0), "state_num": entry.get("state_num"),
+                "broadcast_key": entry["broadcast_key"].lower() if entry.get("broadcast_key") else None}
+        bad = None
+        if impl != "ok":
+            bad = f"cache entry fails to load / save: {impl}"
+        elif st1 is None or st2 is None:
+            bad = "cache entry was not restored at pairing construction"
+        else:
+            for k, v in want.items():
+                if st1[k] != v:
+                    bad = f"{k}: cache holds {v!r}, restored state has {st1[k]!r}"
+                elif st2[k] != v:
+                    bad = f"{k}: {v!r} before the restart, {st2[k]!r} after"
+            if not bad and listed_view(st1["accessories"]) != listed_view(st2["accessories"]):
+                bad = "accessory database differs after the restart"
+        if bad:
+            key = "cache_restart:" + bad.split(":")[0].replace(" ", "-")[:40]
+            if key not in seen:
+                seen.add(key)
+                viols.append(violation(key, "accessory cache restart: " + bad, True, entry=entry, id=hkid))
+            continue
+        stats["restarts_ok"] += 1
+        if ans[0][0] != "ok":
+            viols.append(violation("entry:model-mismatch:class", f"cache entry: implementation ok, model {ans[0][0]}", False,
+                                   entry=entry, broken="correspondence Model/PersistRec.v entry_load"))
+            continue
+        mstate, msaved = ans[0][1], ans[1][1]
+        if canon(mstate) != canon(st1):
+            viols.append(violation("entry:model-mismatch:load", "restored AccessoriesState differs from the model's", False,
+                                   entry=entry, impl=st1, model=mstate, broken="correspondence Model/PersistRec.v entry_load"))
+        elif canon(msaved) != canon(saved):
+            viols.append(violation("entry:model-mismatch:save", "cache entry written back differs from the model's", False,
+                                   entry=entry, impl=saved, model=msaved, broken="correspondence Model/PersistRec.v entry_save"))
+    cov.extra["entry_stream"] = stats
+
+
+# ---------------------------------------------------------------- stream: pairing records
+def stream_pairs(ctx, drv, cov, viols, root, r):
+    tier = ctx["tier"]
+    n = 150 if tier == "quick" else 3000
+    path = os.path.join(root, "pairs.json")
+    stats = dict(files=0, wf=0, transports={})
+    seen = set()
+    files = []
+    files.append(gen_pairing_set(r, 3, ["IP", "BLE", "CoAP"]))
+    for i in range(n):
+        ps = gen_pairing_set(r)
+        if i % 3 == 2:                                   # malformed / legacy variants
+            a = next(iter(ps))
+            m = r.random()
+            if m < 0.25:
+                if ps[a]["Connection"] == "IP":
+                    ps[a].pop("Connection")             # legacy file without Connection
+            elif m < 0.45:
+                ps[a].pop(r.choice(sorted(ps[a])))
+            elif m < 0.6:
+                ps[a]["Connection"] = r.choice(["Fake", "ip", "", "Thread"])
+            elif m < 0.75:
+                ps[a]["AccessoryPairingID"] = r.choice(["", None])
+            elif m < 0.9:
+                ps[a]["AccessoryIPs"] = ["10.1.1.1"]
+                ps[a].pop("AccessoryIP", None)
+        files.append(ps)
+    answers = drv.batch(["pairs " + to_tokens(ps) for ps in files])
+    for ps, ans in zip(files, answers):
+        reset_dir(root, {"pairs.json": dumps_file(ps)})
+        loaded = load_pairings(path)
+        model = parse_answer(ans)[0]
+
+        def wfp(d):
+            t = d.get("Connection")
+            if not isinstance(d.get("AccessoryPairingID"), str) or not d["AccessoryPairingID"]:
+                return False
+            if t in ("IP", "CoAP"):
+                return "AccessoryIP" in d and "AccessoryPort" in d
+            return t == "BLE"
+        wf = all(wfp(d) for d in ps.values())
+        stats["files"] += 1
+        stats["wf"] += wf
+        for d in ps.values():
+            t = str(d.get("Connection", "(none)"))
+            stats["transports"][t] = stats["transports"].get(t, 0) + 1
+        impl_cls = loaded[0] if loaded[0] != "other" else ("crash" if loaded[1] in ("KeyError", "TypeError", "AttributeError") else "other:" + loaded[1])
+        cov.case("pairs|" + canon(ps), True,
+                 sample=dict(stream="pairs", aliases=list(ps), wf=wf, impl=impl_cls) if stats["files"] % 37 == 0 else None,
+                 pairs_wf=wf, pairs_impl=impl_cls, pairs_n=len(ps))
+        if wf:
+            bad = None
+            if loaded[0] != "ok":
+                bad = f"load_data fails ({impl_cls}) on a well-formed pairing file"
+            elif loaded[1] != ps:
+                ks = [a for a in ps if loaded[1].get(a) != ps[a]]
+                bad = f"pairing data of alias(es) {ks} not read back unchanged"
+            if bad:
+                key = "pairing_roundtrip:" + ("load-fails" if loaded[0] != "ok" else "fields-changed")
+                if key not in seen:
+                    seen.add(key)
+                    viols.append(violation(key, bad, True, pairings=ps, loaded=loaded[1] if loaded[0] == "ok" else impl_cls))
+                continue
+        mcls = model[0]
+        if mcls != impl_cls and not (mcls == "ok" and impl_cls == "ok"):
+            viols.append(violation("pairs:model-mismatch:class", f"load_data: implementation {impl_cls}, model {mcls}", False,
+                                   pairings=ps, broken="correspondence Model/PersistRec.v load_pairing <-> Controller.load_pairing"))
+        elif mcls == "ok" and canon(model[1]) != canon(loaded[1]):
+            viols.append(violation("pairs:model-mismatch:data", "loaded pairing data differ from the model's", False,
+                                   pairings=ps, impl=loaded[1], model=model[1],
+                                   broken="correspondence Model/PersistRec.v load_pairing <-> Controller.load_pairing"))
+    # broadcast key hex codec
+    keys = [bytes(r.getrandbits(8) for _ in range(r.choice([0, 1, 16, 32]))) for _ in range(40)] + [bytes(range(256))]
+    for k, a in zip(keys, drv.batch(["hexrt " + hx(k) for k in keys])):
+        from aiohomekit.utils import deserialize_broadcast_key, serialize_broadcast_key
+        if a != "ok " + hx(k) or deserialize_broadcast_key(serialize_broadcast_key(k)) != k:
+            viols.append(violation("bkey:hex-roundtrip", "broadcast key hex round trip differs", deserialize_broadcast_key(serialize_broadcast_key(k)) != k,
+                                   key=k.hex(), model=a))
+    cov.extra["pairs_stream"] = stats
+
+
+# ---------------------------------------------------------------- stream: cache file crash points, prefixes, corruptions
+def cache_doc(r, n_pairings=1, small=True):
+    out = {}
+    for _ in range(n_pairings):
+        hkid = ":".join(f"{r.getrandbits(8):02x}" for _ in range(6))
+        out[hkid] = {"config_num": r.randrange(1, 100), "accessories": gen_entity_map(r, True, small=small),
+                     "broadcast_key": r.choice([None, hexs(r, 32)]), "state_num": r.choice([None, r.randrange(1, 65536)])}
+    return out
+
+
+def classify_cache(old, new):
+    def f(loaded):
+        if loaded[0] != "ok":
+            return "other:" + loaded[1]
+        d = loaded[1]
+        if old is not None and d == old:
+            return "old"
+        if d == new:
+            return "new"
+        if d == {}:
+            return "empty"
+        return "different"
+    return f
+
+
+CACHE_MODEL_TO_LOAD = {"old": "old", "new": "new", "missing": "empty", "prefix": "empty"}
+
+
+def stream_cache(ctx, drv, cov, viols, root, r):
+    import pathlib
+
+    from aiohomekit import hkjson
+    from aiohomekit.characteristic_cache import CharacteristicCacheFile
+    tier = ctx["tier"]
+    path = os.path.join(root, "cache.json")
+    # ---- crash points of the cache's own save
+    stats = dict(saves=0, crash_points=0, shapes={}, results={})
+    first = {}
+    for i in range(6 if tier == "quick" else 60):
+        old = cache_doc(r, r.choice([1, 2])) if i % 4 != 3 else None
+        hkid = ":".join(f"{r.getrandbits(8):02x}" for _ in range(6))
+        add = cache_doc(r, 1)
+        (_, ent), = add.items()
+        new = dict(old or {})
+        new[hkid] = ent
+        init = {"cache.json": json.dumps({"pairings": old}, ensure_ascii=False).encode("utf-8")} if old is not None else {}
+
+        def make_action(ent=ent, hkid=hkid):
+            def act():
+                c = CharacteristicCacheFile(pathlib.Path(path))
+                c.async_create_or_update_map(hkid, ent["config_num"], ent["accessories"], ent["broadcast_key"], ent["state_num"])
+            return act
+        case = CrashCase(root, drv, "cache.json", init, make_action, load_cache, classify_cache(old, new),
+                         5 if tier == "quick" else 12)
+        res = case.run()
+        stats["saves"] += 1
+        stats["shapes"][res["shape"]] = stats["shapes"].get(res["shape"], 0) + 1
+        judge_crash_case("cache_save", res, True, cov, viols, first, stats, dict(old_ids=sorted(old or {}), new_id=hkid),
+                         CACHE_MODEL_TO_LOAD, {"old", "new", "empty"}, {"old", "new", "empty"})
+    cov.extra["cache_save_stream"] = stats
+    # ---- every strict prefix of valid cache files; unparsable corruptions
+    pstats = dict(documents=0, prefixes=0, prefixes_exhaustive_docs=0, corruptions=0, corruptions_unparsable=0,
+                  corruptions_still_parsable=0, parsable_without_pairings=0, midchar_prefixes=0)
+    docs = []
+    for f in sorted(glob.glob(os.path.join(ctx["repo"], "tests", "fixtures", "*.json")))[: (4 if tier == "quick" else 99)]:
+        try:
+            docs.append({"aa:bb:cc:dd:ee:ff": {"config_num": 3, "accessories": json.load(open(f, encoding="utf-8")),
+                                               "broadcast_key": "00" * 32, "state_num": 7}})
+        except ValueError:
+            pass
+    for i in range(6 if tier == "quick" else 60):
+        docs.append(cache_doc(r, r.choice([1, 2]), small=True))
+    docs.append({})
+    seen = set()
+
+    def check_bytes(content, what, doc_id):
+        reset_dir(root, {"cache.json": content})
+        res = load_cache(path)
+        try:
+            hkjson.loads(content.decode("utf-8"))
+            parsable = True
+        except (UnicodeDecodeError, ValueError):
+            parsable = False
+        return res, parsable
+
+    for di, doc in enumerate(docs):
+        reset_dir(root, {})
+        c = CharacteristicCacheFile(pathlib.Path(path))
+        c.storage_data = json.loads(json.dumps(doc))
+        c._do_save()
+        valid = open(path, "rb").read()
+        pstats["documents"] += 1
+        full = load_cache(path)
+        if full != ("ok", doc):
+            viols.append(violation("cache_roundtrip:valid-file-not-read-back", "a cache file written by CharacteristicCacheFile "
+                                   "is not read back unchanged", True, document=doc, loaded=str(full)[:300]))
+            continue
+        if len(valid) <= (700 if tier == "quick" else 4000):
+            lens = list(range(len(valid)))
+            pstats["prefixes_exhaustive_docs"] += 1
+        else:
+            lens = sorted(set(list(range(0, 40)) + list(range(len(valid) - 40, len(valid)))
+                              + [r.randrange(len(valid)) for _ in range(60 if tier == "quick" else 400)]
+                              + [k for k in range(1, len(valid)) if valid[k] & 0xC0 == 0x80][:40]))
+        for k in lens:
+            res, parsable = check_bytes(valid[:k], "prefix", di)
+            pstats["prefixes"] += 1
+            mid = k < len(valid) and valid[k] & 0xC0 == 0x80
+            pstats["midchar_prefixes"] += mid
+            cov.case(f"prefix|{di}|{k}", True,
+                     sample=dict(stream="cache-prefix", doc_bytes=len(valid), prefix=k, loaded=str(res)[:40]) if pstats["prefixes"] % 499 == 0 else None,
+                     prefix_result="empty" if res == ("ok", {}) else str(res[0]), prefix_midchar=bool(mid))
+            if res != ("ok", {}) or parsable:
+                key = "cache_prefix_safe:" + ("prefix-parses" if parsable else "prefix-not-empty-cache")
+                if key not in seen:
+                    seen.add(key)
+                    viols.append(violation(key, f"strict prefix ({k} of {len(valid)} bytes) of a valid cache file loads as "
+                                           f"{str(res)[:80]} instead of the empty cache", True,
+                                           prefix_hex=hx(valid[:k])[-200:], prefix_len=k, file_len=len(valid)))
+        # corruptions
+        for _ in range(25 if tier == "quick" else 120):
+            b = bytearray(valid)
+            m = r.random()
+            if not b:
+                break
+            if m < 0.3:
+                j = r.randrange(len(b))
+                b[j] ^= 1 << r.randrange(8)
+            elif m < 0.5:
+                j = r.randrange(len(b))
+                del b[j:j + r.randrange(1, 6)]
+            elif m < 0.7:
+                j = r.randrange(len(b))
+                b[j:j] = bytes(r.choice([0x7B, 0x7D, 0x22, 0x2C, 0x5B, 0xFF, 0x00, 0xC3]) for _ in range(r.randrange(1, 4)))
+            elif m < 0.85:
+                b = b[: r.randrange(len(b))] + bytes(r.getrandbits(8) for _ in range(r.randrange(1, 10)))
+            else:
+                b = bytearray(r.getrandbits(8) for _ in range(r.randrange(0, 60)))
+            res, parsable = check_bytes(bytes(b), "corruption", di)
+            pstats["corruptions"] += 1
+            cov.case("corrupt|" + hx(bytes(b))[:4000], True,
+                     sample=dict(stream="cache-corruption", bytes=len(b), parsable=parsable, loaded=str(res)[:40]) if pstats["corruptions"] % 97 == 0 else None,
+                     corrupt_parsable=parsable, corrupt_result="empty" if res == ("ok", {}) else (res[0] if res[0] == "ok" else res[1]))
+            if not parsable:
+                pstats["corruptions_unparsable"] += 1
+                if res != ("ok", {}):
+                    key = "cache_prefix_safe:unparsable-not-empty-cache"
+                    if key not in seen:
+                        seen.add(key)
+                        viols.append(violation(key, f"unparsable cache content loads as {str(res)[:80]} instead of the empty cache",
+                                               True, content_hex=hx(bytes(b))[:600]))
+            else:
+                pstats["corruptions_still_parsable"] += 1
+                if res[0] != "ok":
+                    pstats["parsable_without_pairings"] += 1      # outside the property: parsable but not a cache document
+    cov.extra["cache_prefix_stream"] = pstats
+
+
 # ---------------------------------------------------------------- run
 async def run_async(ctx):
     tier, seed = ctx["tier"], ctx["seed"]
@@ -369,6 +1163,10 @@ async def run_async(ctx):
     root = tempfile.mkdtemp(prefix="verif_c20_", dir=SANDBOX_PARENT)
     try:
         stream_save(ctx, drv, cov, viols, root, rng(seed, "c20save"))
+        stream_cache(ctx, drv, cov, viols, root, rng(seed, "c20cache"))
+        stream_pairs(ctx, drv, cov, viols, root, rng(seed, "c20pairs"))
+        stream_entry(ctx, drv, cov, viols, root, rng(seed, "c20entry"))
+        stream_emap(ctx, drv, cov, viols, rng(seed, "c20emap"))
     finally:
         shutil.rmtree(root, ignore_errors=True)
         for t in asyncio.all_tasks():
@@ -382,4 +1180,11 @@ async def run_async(ctx):
 
 
 def run(ctx):
-    return asyncio.run(run_async(ctx))
+    import logging
+    lg = logging.getLogger("asyncio")          # Controller logs skipped pairings through asyncio's logger
+    lvl = lg.level
+    lg.setLevel(logging.CRITICAL)
+    try:
+        return asyncio.run(run_async(ctx))
+    finally:
+        lg.setLevel(lvl)
